@@ -119,6 +119,10 @@ class ConfigTargetVisibility(object):
         elif any(node.prompt is not None and self._visible(node)[0] for node in item.nodes):
             # The user can set it directly through a reachable prompt (and symbol is not force-selected).
             is_constant = False
+        elif not self._expr_is_target_constant(item.weak_rev_dep):
+            # Implied (weak reverse dependency) by a source the user can change: `imply` raises the value of a
+            # promptless symbol as well, so the user still controls it indirectly.
+            is_constant = False
         else:
             # Promptless or target-gated: constant iff everything determining its value is target-constant.
             is_constant = self._expr_is_target_constant(item.rev_dep) and all(
